@@ -12,6 +12,7 @@ import (
 	"reflect"
 	"sort"
 	"strconv"
+	"time"
 )
 
 type replay struct {
@@ -203,4 +204,64 @@ func RunBatch(registry map[string]func()) (anyFailed bool) {
 // the SSA functions; natively the code pointers).
 func SameFunc(a, b any) bool {
 	return reflect.ValueOf(a).Pointer() == reflect.ValueOf(b).Pointer()
+}
+
+// RunUntilBlocked runs a goroutine body f. Under the executor it reports whether f ended
+// blocked on a channel operation with nothing ready (the harness continues either way).
+// Natively f runs in a goroutine; it counts as blocked if it has not returned after 300 ms.
+func RunUntilBlocked(f func()) bool {
+	done := make(chan struct{})
+	var pan any
+	go func() {
+		defer func() {
+			pan = recover()
+			close(done)
+		}()
+		f()
+	}()
+	select {
+	case <-done:
+		if pan != nil {
+			panic(pan)
+		}
+		return false
+	case <-time.After(300 * time.Millisecond):
+		return true
+	}
+}
+
+// RunWithEnv runs a goroutine body f against a scripted environment: whenever f is about to
+// block, env gets a turn (and reports whether it did something); f counts as blocked once env
+// has nothing left to do. Natively "about to block" is approximated by 60 ms of quiet.
+func RunWithEnv(f func(), env func() bool) bool {
+	done := make(chan struct{})
+	var pan any
+	go func() {
+		defer func() {
+			pan = recover()
+			close(done)
+		}()
+		f()
+	}()
+	for {
+		select {
+		case <-done:
+			if pan != nil {
+				panic(pan)
+			}
+			return false
+		case <-time.After(60 * time.Millisecond):
+			if !env() {
+				select {
+				case <-done:
+					if pan != nil {
+						panic(pan)
+					}
+					return false
+				case <-time.After(300 * time.Millisecond):
+					return true
+				}
+			}
+		}
+	}
 }
